@@ -174,21 +174,53 @@ pub fn string_list(vm: &mut Vm) -> Result<VCell, Error> {
 }
 
 pub fn string_vector(vm: &mut Vm) -> Result<VCell, Error> {
-    pop_argc(vm, 1, Some(1), "string->vector")?;
+    let argc = pop_argc(vm, 1, Some(3), "string->vector")?;
+
+    let end = match argc {
+        3 => Some(pop_index(vm, "string->vector")?),
+        _ => None,
+    };
+
+    let start = match argc {
+        2 | 3 => Some(pop_index(vm, "string->vector")?),
+        _ => None,
+    };
 
     let s = pop_string(vm, "string->vector")?;
     let s = s.borrow();
     let s = s.as_str();
-    let v = s.chars().map(VCell::Char).collect::<Vec<_>>();
+    let (start, end) = char_substring_offset(s, start, end)?;
+    let v = s[start..end].chars().map(VCell::Char).collect::<Vec<_>>();
     Ok(VCell::vector(v))
 }
 
 pub fn vector_string(vm: &mut Vm) -> Result<VCell, Error> {
-    pop_argc(vm, 1, Some(1), "vector->string")?;
+    let argc = pop_argc(vm, 1, Some(3), "vector->string")?;
+
+    let end = match argc {
+        3 => Some(pop_index(vm, "vector->string")?),
+        _ => None,
+    };
+
+    let start = match argc {
+        2 | 3 => Some(pop_index(vm, "vector->string")?),
+        _ => None,
+    };
 
     let v = pop_vector(vm)?;
-    let mut s = String::with_capacity(v.len());
-    for it in 0..v.len() {
+    let start = start.unwrap_or(0);
+    let end = end.unwrap_or_else(|| v.len());
+    if end > v.len() {
+        return Err(Error::InvalidVectorIndex(end, v.len()));
+    }
+    if start > end {
+        return Err(InvalidSyntax(
+            "vector->string requires start <= end".into(),
+        ));
+    }
+
+    let mut s = String::with_capacity(end - start);
+    for it in start..end {
         let vcell = vm.heap.get(v.get(it).unwrap());
         s.push(vcell.as_char()?);
     }
